@@ -169,6 +169,7 @@ let handle (toks : string list) : string =
       let bs = z_of_int (int_of_string bs) in
       let old = bytes_of_hex oldh and nw = bytes_of_hex newh in
       Printf.sprintf "ckw=%s wire=%s" (str_of_cks (cks_id bs old)) (app_str old (gen_stream_impl bs old nw))
+  | ["B"; n] -> Printf.sprintf "bsz=%d" (int_of_z (block_size_for (zint n)))
   | ["R"; bs; datah] ->
       let bsn = int_of_string bs in
       let data = bytes_of_hex datah in
